@@ -306,10 +306,25 @@ Fixpoint from_first_slash (s : string) : string :=
 Definition url_path (u : string) : string :=
   match after_marker "://" u with Some rest => from_first_slash rest | None => u end.
 
+(* URL.without_auth for scheme://[user[:password]@]host/path *)
+Fixpoint before_first_slash (s : string) : string :=
+  match s with
+  | EmptyString => EmptyString
+  | String a r => if Ascii.eqb a ch_slash then EmptyString else String a (before_first_slash r)
+  end.
+Definition after_last_at (s : string) : string := List.last (split_on "@"%char s) EmptyString.
+Definition strip_auth (u : string) : string :=
+  match after_marker "://" u with
+  | Some rest =>
+      String.substring 0 (String.length u - String.length rest) u
+      +++ after_last_at (before_first_slash rest) +++ from_first_slash rest
+  | None => u
+  end.
+
 (* Config._update_skip_clean for the repository with key [key] *)
 Definition skip_clean_paths (data : list (string * string * list string)) (key : string) : list string :=
   flat_map (fun o => match o with (n, u, _) =>
-    if String.eqb n "skip-clean" && String.prefix key u then
+    if String.eqb n "skip-clean" && String.prefix (strip_auth key) (strip_auth u) then
       let pu := parse (url_path u) in let pk := parse (url_path key) in
       if is_relative_to pu pk
       then [render {| pabs := false; parts := skipn (List.length (parts pk)) (parts pu) |}]
